@@ -26,7 +26,7 @@ CLAIMED = {
         "DESIGN.md 4.3",
     ),
     "C12": (
-        "static path/dominance rules: CRC-failure exit returns the whole candidate as one non-RTCM message, no content-dependent exit or push-back while a candidate is read, leader-only rejection sites of the five-byte helper, CRC gate completeness, week-state changes dominated by the CRC-success edge, C02 conservation; composed with the no-panic obligations of the stream handler",
+        "static path/dominance rules: CRC-failure exit returns the whole candidate as one non-RTCM message, no content-dependent exit or push-back while a candidate is read, leader-only rejection sites of the five-byte helper, CRC gate completeness, week-state changes dominated by the CRC-success edge, C02 conservation; composed with the no-panic obligations of the stream handler; who-may-call rule: no fmt.Print*/os.Stdout in module code reachable from the entry point",
         "Decides that a CRC failure cannot move a frame boundary and costs exactly the candidate frame, on every path.",
         "the corrupted frame's CRC differs (2^-24 residual inherent to CRC)",
         "DESIGN.md 4.12",
@@ -44,7 +44,7 @@ CLAIMED = {
         "DESIGN.md 4.5",
     ),
     "C06": (
-        "static dataflow/dominance rules: lost-update (copy-of-receiver) analysis, per-constellation field separation, type-dispatch table extraction, no-store-on-error paths, strict rollover comparison, result-shape rule of the Glonass converter, state changes only after the CRC gate, constant evaluation; must-pass rule: the remembered timestamp is stored on every successful path",
+        "static dataflow/dominance rules: lost-update (copy-of-receiver) analysis, per-constellation field separation, type-dispatch table extraction, no-store-on-error paths, strict rollover comparison, result-shape rule of the Glonass converter, state changes only after the CRC gate, constant evaluation; must-pass rule: the remembered timestamp is stored on every successful path; who-may-call rule: no use of time.Now/Since/Until reachable from the handler constructor or the decoder",
         "Decides structural necessary conditions of the week bookkeeping (state persistence, constellation separation, dispatch tables over the whole type domain, no state write on error paths, strict rollover test with +7 days, offset/limit constants). Does not decide numerical equality of reported times.",
         "time.Time arithmetic and calendar trusted; oracle constants from the property statement",
         "DESIGN.md 4.6",
@@ -68,7 +68,7 @@ CLAIMED = {
         "DESIGN.md 4.9",
     ),
     "C11": (
-        "static happens-before (join) analysis on SSA CFG: signal-after-last-write (deferred calls in LIFO order, Flush/Sync count as writes), wait-on-every-return-path, close-before-wait, WaitGroup.Add-before-go; consumer-loop path rules; use-site rule: the entry point leaves the writer alone between the first go statement and the last join",
+        "static happens-before (join) analysis on SSA CFG: signal-after-last-write (deferred calls in LIFO order, Flush/Sync count as writes), wait-on-every-return-path, close-before-wait, WaitGroup.Add-before-go with Add/go counting (also for goroutines that only share the writers' WaitGroup); consumer-loop path rules; use-site rule: the entry point leaves the writer alone between the first go statement and the last join",
         "Decides whether a close->wait join exists between every writer goroutine and every return of the entry point: with it no schedule can lose output, without it some schedule does. All schedules and writer latencies are covered by the happens-before argument, not sampled.",
         "writer.Write is synchronous (true of os.Stdout, files, bytes.Buffer); Go memory model",
         "DESIGN.md 4.11",
@@ -92,7 +92,7 @@ CLAIMED = {
         "DESIGN.md 4.15",
     ),
     "C16": (
-        "static path rules (read->write->send exactly once, in order, same buffer and n), private-copy dataflow, consumer-loop rule, join analysis; every-path rule: the copy loop returns only over an err == io.EOF edge",
+        "static path rules (read->write->send exactly once, in order, same buffer and n), private-copy dataflow, consumer-loop rule, join analysis; every-path rule: the copy loop returns only over an err == io.EOF edge; arithmetic no-panic obligations (index, slice, bit-read extents, division, shift) of the copy loop, recorder and their callees discharged by affine entailment",
         "Decides the tee structure of rtcmlogger on every CFG path: each block read is written to stdout and sent as a fresh copy to the recorder exactly once, the recorder writes every block and is joined before start returns. Does not decide dailylogger's file handling.",
         "os.File Read/Write contracts; dailylogger is a dependency",
         "DESIGN.md 4.16",
@@ -104,13 +104,13 @@ CLAIMED = {
         "DESIGN.md 4.17",
     ),
     "C19": (
-        "static path rules on both relay loops (read->peer write exactly once, same buffer and n, fresh buffer, no write deadline while the write result is ignored), non-mutation scan, taint analysis of traffic-derived text to the status page with the escape helper as sanitiser, provenance (who may call Add / send on the byte channel); no relay loop closes a connection; composed with all rules of C18 for the queue the parser side feeds",
+        "static path rules on both relay loops (read->peer write exactly once, same buffer and n, fresh buffer, no write deadline or non-negative SetLinger on a relay connection), non-mutation scan over every module function reachable from the proxy package (store, copy, in-place append into a buffer not allocated there), taint analysis of traffic-derived text to the status page with the escape helper as sanitiser, provenance (who may call Add / send on the byte channel); no relay loop closes a connection; composed with all rules of C18 for the queue the parser side feeds",
         "Decides the relay and escaping structure on every CFG path and every flow into the page; TCP/HTTP behaviour is outside.",
         "net.Conn Read/Write contracts; statusreporter dependency; escape helper adequacy = replaces '<' and '>' throughout",
         "DESIGN.md 4.19",
     ),
     "C18": (
-        "static lock-discipline analysis (every field access dominated by the queue's lock, writes under the write lock, helpers called with the lock held), encapsulation check, structural FIFO rules (monotone key, evict-before-insert with >=, ascending sorted snapshot); call-site rule: every Add is synchronous",
+        "static lock-discipline analysis (every field access dominated by the queue's lock, writes under the write lock, helpers called with the lock held), encapsulation check, structural FIFO rules (monotone key, evict-before-insert with >=, ascending sorted snapshot); call-site rules: every Add is synchronous, and a loop feeding the queue from a channel ends only when the channel is closed",
         "Decides for all operation sequences and interleavings the structural conditions of a bounded FIFO under a readers-writer lock; linearizability follows from atomic critical sections and is not enumerated.",
         "sync.RWMutex, sort.Ints and map semantics trusted",
         "DESIGN.md 4.18",
